@@ -70,7 +70,7 @@ func ruleT1(w *world.World, r *report.RuleResult) {
 			if iff == nil {
 				return 0
 			}
-			x, eq, ok := world.NilTest(iff.Cond)
+			x, eq, ok := world.NilTest(world.CondValue(iff))
 			if !ok || !sameOrPhiOf(x, hv) {
 				return 0
 			}
